@@ -20,7 +20,37 @@ def unit(root='/repo'):
 pub type Inode = u64;
 pub trait BitmapSlice {}
 // PassthroughFs: only the configuration is relevant here (the other fields are fd tables, atomics, maps)
-pub struct PassthroughFs<S> { pub cfg: Config, pub phantom: PhantomData<S> }
+pub struct PassthroughFs<S> { pub cfg: Config, pub writeback: AtomicBool, pub proc_self_fd: File, pub inode_map: InodeMap, pub phantom: PhantomData<S> }
+// ---- safe opening (C06 / C05 "special files are looked up but never opened for I/O"): syscalls as capability-guarded externals
+#[verifier::external_body] pub struct File { _p: u8 }
+#[verifier::external_body] pub struct FileHandle { _p: u8 }
+#[verifier::external_body] pub struct StatExt { _p: u8 }
+pub trait AsRawFd {}
+impl AsRawFd for File {}
+pub struct InodeData { pub inode: Inode, pub mode: u32 }           // the fields open_inode reads (the rest: handle, id, refcount)
+#[verifier::external_body] pub struct InodeMap { _p: u8 }
+impl InodeMap {
+    #[verifier::external_body] pub fn get(&self, inode: Inode) -> (r: io::Result<Arc<InodeData>>) { unimplemented!() }
+}
+// InodeData::open_file re-opens the inode through /proc/self/fd (which CLEARS O_NOFOLLOW): capability
+pub uninterp spec fn reopen_ok(d: InodeData, flags: i32) -> bool;
+impl InodeData {
+    #[verifier::external_body]
+    pub fn open_file(&self, flags: i32, proc_self_fd: &File) -> (r: io::Result<File>)
+        requires reopen_ok(*self, flags), // [reopen]
+    { unimplemented!() }
+}
+// openat(2): capability on the flags actually passed to the kernel
+pub uninterp spec fn openat_ok(flags: i32) -> bool;
+#[verifier::external_body]
+pub fn openat<D: AsRawFd>(dir_fd: &D, path: &CStr, flags: i32, mode: u32) -> (r: io::Result<File>)
+    requires openat_ok(flags), // [openat]
+{ unimplemented!() }
+#[verifier::external_body] pub fn statx<D: AsRawFd>(dir: &D, path: Option<&CStr>) -> (r: io::Result<StatExt>) { unimplemented!() }
+impl FileHandle {
+    #[verifier::external_body] pub fn from_fd<D: AsRawFd>(fd: &D) -> (r: io::Result<Option<FileHandle>>) { unimplemented!() }
+}
+pub open spec fn safe_mode(mode: u32) -> bool { mode & 0o170000u32 == 0o100000u32 || mode & 0o170000u32 == 0o040000u32 }   // S_IFREG or S_IFDIR (stat(2))
 impl<S: BitmapSlice + Send + Sync> PassthroughFs<S> {
     // do_lookup is a chain of syscalls (not extracted): capability in, uninterpreted result out
     pub uninterp spec fn do_lookup_ok(&self, parent: Inode, name: Seq<u8>) -> bool;
@@ -54,6 +84,36 @@ impl<S: BitmapSlice + Send + Sync> PassthroughFs<S> {
                         '!has_slash(name@) ==> r == self.res_do_lookup() // [C06.pt.lookup.result]'],
                splices=[('^', 'after', 'proof { lemma_contains_push(name@, 47u8, 0u8); }')],
                props=['C06'], canary=True),
+            Fn(PT, 'impl<S: BitmapSlice + Send + Sync> PassthroughFs<S>', 'get_writeback_open_flags', props=['C06'],
+               ensures=['r & 0o2000000i32 == flags & 0o2000000i32 // O_CLOEXEC untouched', 'r & 0o40000i32 == flags & 0o40000i32 // O_DIRECT untouched'],
+               splices=[('^', 'after', '''proof {
+            assert(forall|f: i32| #![auto] ((f & !3i32) | 2i32) & 0o2000000i32 == f & 0o2000000i32 && ((f & !3i32) | 2i32) & 0o40000i32 == f & 0o40000i32) by (bit_vector);
+            assert(forall|f: i32| #![auto] (f & !0o2000i32) & 0o2000000i32 == f & 0o2000000i32 && (f & !0o2000i32) & 0o40000i32 == f & 0o40000i32) by (bit_vector);
+        }''')]),
+            Fn(PT, 'impl<S: BitmapSlice + Send + Sync> PassthroughFs<S>', 'open_file_restricted',
+               sig_subst=[('dir: &impl AsRawFd', 'dir: &File')],
+               # every name-based open carries O_NOFOLLOW (and O_CLOEXEC): a symlink planted under the export is never followed
+               requires=['forall|f: i32| (f & 0o400000i32 != 0 && f & 0o2000000i32 != 0 && f & flags == flags) ==> #[trigger] openat_ok(f) // [C06.safeopen.nofollow] only flag words with O_NOFOLLOW and O_CLOEXEC (and the requested flags) are granted'],
+               splices=[('^', 'after', 'proof { assert(forall|f: i32| #![auto] (0o400000i32 | 0o2000000i32 | f) & 0o400000i32 != 0 && (0o400000i32 | 0o2000000i32 | f) & 0o2000000i32 != 0 && (0o400000i32 | 0o2000000i32 | f) & f == f) by (bit_vector); }')],
+               props=['C06'], canary=True),
+            Fn(PT, 'impl<S: BitmapSlice + Send + Sync> PassthroughFs<S>', 'open_file_and_handle',
+               sig_subst=[('dir: &impl AsRawFd', 'dir: &File')],
+               # lookups open with O_PATH | O_NOFOLLOW: the object itself is never opened for I/O by a lookup
+               requires=['forall|f: i32| (f & 0o400000i32 != 0 && f & 0o2000000i32 != 0 && f & 0o10000000i32 != 0) ==> #[trigger] openat_ok(f) // [C06.safeopen.opath] only O_PATH | O_NOFOLLOW opens are granted to a lookup'],
+               splices=[('^', 'after', 'proof { assert(forall|f: i32| #![auto] f & 0o10000000i32 == 0o10000000i32 ==> f & 0o10000000i32 != 0) by (bit_vector); }')],
+               body_subst=[('self.open_file_restricted(dir, name, libc::O_PATH, 0)?', 'self.open_file_restricted(dir, name, libc::O_PATH, 0)?')],
+               props=['C06'], canary=True),
+        ]),
+        Fn('src/passthrough/util.rs', None, 'is_safe_inode', ensures=['r == safe_mode(mode) // [C06.safeopen.pred]'], props=['C06']),
+        Fn('src/passthrough/util.rs', None, 'is_dir', ensures=['r == (mode & 0o170000u32 == 0o040000u32)'], props=['C06']),
+        Fn('src/passthrough/util.rs', None, 'ebadf', ensures=['r.os_code() == Some(9i32)'], props=['C06']),
+        Group('impl<S: BitmapSlice + Send + Sync> PassthroughFs<S> {', [
+            Fn(PTS, 'impl<S: BitmapSlice + Send + Sync> PassthroughFs<S>', 'open_inode',
+               # "special files are looked up but never opened for I/O": only regular files and directories are ever re-opened
+               requires=['forall|d: InodeData, f: i32| #[trigger] reopen_ok(d, f) <==> (safe_mode(d.mode) && f & 0o2000000i32 != 0) // [C06.safeopen.reopen]'],
+               ensures=[],
+               splices=[('^', 'after', 'proof { assert(forall|f: i32| #![auto] (f | 0o2000000i32) & 0o2000000i32 != 0) by (bit_vector); }')],
+               props=['C06'], canary=True),
         ]),
     ]
-    return Unit('pt', items, preludes=['base.rs', 'stdmodel.rs', 'names.rs'], generic_tags={'touch': ['C06']})
+    return Unit('pt', items, preludes=['base.rs', 'stdmodel.rs', 'names.rs'], generic_tags={'touch': ['C06'], 'reopen': ['C06'], 'openat': ['C06']})
